@@ -9,6 +9,7 @@ CONSTANTS
   PoolN = 4
   Depth3 = FALSE
   M_ShiftOnce = TRUE
+  M_LenOfValue = TRUE
   M_ContainsAnyRunes = FALSE
   UChars = {1, 40, 41, 42, 43, 45, 46, 48, 49}
   UMaxData = 2
